@@ -23,7 +23,7 @@ mod proofs {
     use super::bitvec::*;
     use super::column_buffer::*;
 
-    const MAXN: usize = 9;
+    const MAXN: usize = 2;
 
     fn null_at(cb: &ColumnBuffer, i: usize) -> bool {
         match &cb.present {
@@ -67,27 +67,47 @@ mod proofs {
         }
     }
 
-    // a column first seen after n0 rows (all NULL so far), then one operation
-    #[kani::proof]
-    #[kani::unwind(11)]
-    fn null_prefix_then_op() {
-        let n0: usize = kani::any();
-        kani::assume(n0 <= MAXN);
-        let mut cb = ColumnBuffer::null(n0);
-        let mut model = [None; 16];
-        let mut len = n0;
-        step(&mut cb, &mut model, &mut len, 3);
-        check(&cb, &model, len);
-    }
-
-    // up to 9 rows in a first operation (crossing the byte boundary of the bitmap), then a second operation of <= 2 rows
-    #[kani::proof]
-    #[kani::unwind(11)]
-    fn two_ops() {
+    // first operation of exactly N rows (N fixed per harness: lengths around the byte boundary of the bitmap),
+    // then a second operation of at most 2 rows
+    fn scenario<const N: usize>() {
         let mut cb = ColumnBuffer::null(0);
         let mut model = [None; 16];
         let mut len = 0;
-        step(&mut cb, &mut model, &mut len, MAXN);
+        if kani::any() {
+            cb.push_nulls(N);
+            len = N;
+        } else {
+            let vals: [i64; N] = kani::any();
+            let with_map: bool = kani::any();
+            let map: [u8; 2] = kani::any();
+            cb.push_ints(vals.iter().copied(), if with_map { Some(&map[..]) } else { None });
+            for k in 0..N {
+                let present = !with_map || BitVec::is_set(&map[..], k);
+                model[k] = if present { Some(vals[k]) } else { None };
+            }
+            len = N;
+        }
+        step(&mut cb, &mut model, &mut len, 2);
+        check(&cb, &model, len);
+    }
+    #[kani::proof]
+    #[kani::unwind(12)]
+    fn first_op_3_rows() { scenario::<3>(); }
+    #[kani::proof]
+    #[kani::unwind(12)]
+    fn first_op_8_rows() { scenario::<8>(); }
+    #[kani::proof]
+    #[kani::unwind(12)]
+    fn first_op_9_rows() { scenario::<9>(); }
+
+    // a column first seen after n0 rows (all NULL so far), then one operation
+    #[kani::proof]
+    #[kani::unwind(12)]
+    fn null_prefix_then_op() {
+        let n0: usize = if kani::any() { 3 } else { 8 };
+        let mut cb = ColumnBuffer::null(n0);
+        let mut model = [None; 16];
+        let mut len = n0;
         step(&mut cb, &mut model, &mut len, 2);
         check(&cb, &model, len);
     }
